@@ -1,7 +1,9 @@
 (* Props/C14.v — property C14: the session database keeps users, clients and grants apart and
    consistent.  Only statements, each closed by `exact <lemma>`, with Print Assumptions. *)
 From Coq Require Import String.
-From Verif Require Import Lib.Base Lib.PyStr Model.Lv Proofs.Lv_proofs.
+From Coq Require Import List.
+From Verif Require Import Lib.Base Lib.PyStr Model.Lv Proofs.Lv_proofs Model.Db Proofs.Db_proofs.
+Import ListNotations.
 From Verif Require Lib.PyOps Gen.Src_db Proofs.Src_refine.
 Open Scope string_scope.
 
@@ -41,3 +43,60 @@ Theorem C14_branch_key_is_source : forall args clock,
   = match branch_key args with Ok k => Ok (VStr k) | Err e => Err e | Unmodelled => Unmodelled end.
 Proof. exact Src_refine.branch_key_refines. Qed.
 Print Assumptions C14_branch_key_is_source.
+
+(* ================================================================ the session tree, for every history
+   `run G rv ops []` is the store reached from the empty database by the operation sequence ops over
+   add_grant (create_session / create_grant / add_exchange_grant), revoke_sub_tree (grant / client / user level),
+   delete (every depth, every path, remove_session) and flush; G is the grant payload.  kp = unpack_branch_key. *)
+
+(* every stored node below the root level is listed by its stored parent *)
+Theorem C14_reachable_from_parent : forall G rv ops k p x,
+  has_key k (run G rv ops []) = true -> unpack_branch_key k = (p ++ [x])%list -> p <> [] ->
+  exists pk id subs r l, branch_key p = Ok pk /\ assoc pk (run G rv ops []) = Some (NInfo id subs r l) /\ In k subs.
+Proof. exact reach_reachable. Qed.
+Print Assumptions C14_reachable_from_parent.
+
+(* every listed subordinate is stored and is a one-level extension of the node that lists it *)
+Theorem C14_no_dangling_subordinate : forall G rv ops k id subs r l s,
+  assoc k (run G rv ops []) = Some (NInfo id subs r l) -> In s subs ->
+  has_key s (run G rv ops []) = true /\ exists x, unpack_branch_key s = (unpack_branch_key k ++ [x])%list.
+Proof. exact reach_no_dangling. Qed.
+Print Assumptions C14_no_dangling_subordinate.
+
+(* distinct (user, client, grant) paths never share a stored node *)
+Theorem C14_one_node_per_path : forall G rv ops k k' n n',
+  assoc k (run G rv ops []) = Some n -> assoc k' (run G rv ops []) = Some n' ->
+  unpack_branch_key k = unpack_branch_key k' -> k = k'.
+Proof. exact reach_one_node_per_path. Qed.
+Print Assumptions C14_one_node_per_path.
+
+(* a removed node takes its whole subtree with it and nothing else: after delete(path), a node that is not a
+   strict ancestor of path's node is gone iff it lies in the subtree, and is otherwise bit-for-bit what it was
+   (strict ancestors may lose the entry in their subordinate list, and go when that list becomes empty) *)
+Theorem C14_delete_exact : forall G rv ops path leaf d',
+  branch_key path = Ok leaf -> db_delete G path (run G rv ops []) = Ok d' ->
+  forall k, strict_anc k leaf = false -> assoc k d' = if extb leaf k then None else assoc k (run G rv ops []).
+Proof. exact reach_delete_exact. Qed.
+Print Assumptions C14_delete_exact.
+Theorem C14_extb_is_subtree : forall a k, extb a k = true <-> exists q, unpack_branch_key k = (unpack_branch_key a ++ q)%list.
+Proof. exact extb_spec. Qed.
+Theorem C14_strict_anc_is_ancestor : forall k leaf,
+  strict_anc k leaf = true <-> (exists q, unpack_branch_key leaf = (unpack_branch_key k ++ q)%list) /\ k <> leaf.
+Proof. exact strict_anc_spec. Qed.
+
+(* operations on one user's branch leave every node of every other user unchanged, for any number of operations *)
+Theorem C14_other_users_unchanged : forall G rv ops ops' k,
+  Forall (fun o => exists u, op_root G o = Some u /\ rt k <> u) ops' ->
+  assoc k (run G rv ops' (run G rv ops [])) = assoc k (run G rv ops []).
+Proof. exact reach_frame. Qed.
+Print Assumptions C14_other_users_unchanged.
+
+(* non-vacuity: two users, three grants; deleting diana's client_1 session keeps her other client and babs *)
+Definition demo_ops : list (op bool) :=
+  [ OAddGrant (PS "diana") (PS "client_1") (PS "g1") false; OAddGrant (PS "diana") (PS "client_2") (PS "g2") false;
+    OAddGrant (PS "babs") (PS "client_1") (PS "g3") false; ORevoke [PS "babs"; PS "client_1"; PS "g3"] None;
+    ODelete [PS "diana"; PS "client_1"] ].
+Example C14_tree_nonvacuous :
+  List.map fst (run bool (fun _ => true) demo_ops []) =
+  [PS "diana"; PS "diana;;client_2"; PS "diana;;client_2;;g2"; PS "babs"; PS "babs;;client_1"; PS "babs;;client_1;;g3"].
+Proof. vm_compute. reflexivity. Qed.
